@@ -289,7 +289,7 @@ def gen_resp(rng, t=None):
         return {'t': t, 'status': rng.random() < 0.5, 'count': u16(rng)}
     if t == 'getCommEventLog':
         return {'t': t, 'status': rng.random() < 0.5, 'event_count': u16(rng), 'message_count': u16(rng),
-                'events': bytes_(rng, length(rng, 64))}
+                'events': bytes_(rng, length(rng, 64 if rng.random() < 0.7 else 245))}     # (a device's log holds 64; the PDU has room for 245)
     if t == 'reportSlaveId':
         return {'t': t, 'identifier': bytes_(rng, length(rng, 250)), 'status': rng.random() < 0.5}
     if t == 'readFileRecord':
